@@ -472,7 +472,7 @@ func runReplayFile(verifDir, path string) int {
 		return 2
 	}
 	fmt.Printf("replay of %s: failed assertions=%v panic=%q\n", filepath.Base(path), ro.Failed, ro.Panicked)
-	if (rf.Kind == "panic" && ro.Panicked != "") || contains(ro.Failed, rf.Obligation) {
+	if (rf.Kind == "panic" && ro.Panicked != "") || contains(ro.Failed, rf.Obligation) || (ro.OOM && strings.HasPrefix(rf.Obligation, "c06-")) {
 		fmt.Printf("VIOLATION property=%s replay=%s\n", rf.Property, path)
 		return 1
 	}
